@@ -107,6 +107,10 @@ class Cmp:
         case = {"draft": d, "schema": schema, "instance": inst, "format_checker": use_fc, "via_$schema": via_schema_kw}
         try:
             errs = list(cls(schema, **kw).iter_errors(inst))
+        except X.ValidationError as e:
+            # iter_errors YIELDS validation errors; one that is raised out of it never reaches a caller who iterates
+            ctx.violation("iter_errors-raised-a-validation-error", case, "iter_errors raised %s(%r) instead of yielding it" % (type(e).__name__, e.message[:80]))
+            return
         except (X.RefResolutionError, X.UnknownType):
             ctx.count("skipped_documented_exception")
             return
